@@ -42,8 +42,9 @@ class C17Hook:
 
     def check_ids(self, run, ts, oi, op, rec):
         """ids of one stream's whole history are pairwise distinct (evaluated as the history grows)."""
-        seen = self.stream_ids.setdefault((ts.ti, op["s"]), {})
         for si, envs in enumerate(rec["snap"]):
+            sidx = rec["sources"][si].get("sidx") if si < len(rec["sources"]) else None
+            seen = self.stream_ids.setdefault((ts.ti, sidx if sidx is not None else op["s"]), {})
             for ev in envs:
                 for i in engine.collect_ids(ev, ("id",)):
                     if i in seen:
@@ -54,11 +55,11 @@ class C17Hook:
     def check_stream(self, run, ts, oi, op, rec):
         self.check_ids(run, ts, oi, op, rec)
         fs = seams.cur_fs()
-        opts = ts.spec["streams"][op["s"]]["o"]
         cons = (op.get("consumer") or {"k": "drain"})
-        if len(rec["sources"]) != len(op["paths"]) and not rec.get("abandoned"):
+        if len([s for s in rec["sources"] if s.get("sidx") is None]) != len(op["paths"]) and not rec.get("abandoned"):
             run.violation("C17-order", ts.ti, oi, "$sources", len(op["paths"]), len(rec["sources"]))
         for si, s in enumerate(rec["sources"]):
+            opts = ts.spec["streams"][s["sidx"] if s.get("sidx") is not None else op["s"]]["o"]
             mem = s.get("mem")
             text, why = (mem["text"], "ok") if mem is not None else readable(fs, s["path"])
             uri = mem["uri"] if mem is not None else s["path"]
@@ -92,6 +93,11 @@ class C17Hook:
             if d:
                 run.violation("C17-model", ts.ti, oi, d, exp, act)
             self._shape(run, ts, oi, si, s["snap"])
+            # independent of what the parser says: a source is EITHER accepted (source?, gherkinDocument?, pickle*) OR rejected (parseError+)
+            kinds = "".join({"source": "s", "gherkinDocument": "d", "pickle": "p", "parseError": "e"}.get(next(iter(e), "?") if isinstance(e, dict) else "?", "?") for e in s["snap"])
+            import re as _re
+            if not _re.fullmatch(r"s?d?p*|e+", kinds):
+                run.violation("C17-order", ts.ti, oi, "$source[%d].kinds" % si, "source? gherkinDocument? pickle* | parseError+", kinds)
             self.combos.add(h48([text, opts, cons.get("k"), oi > 0 or si > 0]))
             gold = (run.spec.get("golden") or {}).get(str(oi)) if si == 0 and s["status"] == "ok" else None
             if gold is not None:
@@ -252,6 +258,8 @@ def _stream_ops(rng, paths, nstreams, nops, texts=None):
         cons = {"k": "drain"} if r < 0.62 else {"k": "take", "n": rng.randint(0, 6), "close": rng.random() < 0.5} if r < 0.9 else \
             {"k": "zip", "order": [rng.randrange(6) for _ in range(rng.randint(0, 40))]}
         op = {"op": "stream", "s": rng.randrange(nstreams), "paths": chosen, "consumer": cons}
+        if nstreams > 1 and cons["k"] == "drain" and rng.random() < 0.25:
+            op["also"] = (op["s"] + 1) % nstreams  # every event object goes to a second stream as well
         if texts and cons["k"] != "zip" and rng.random() < 0.12:
             # a source event built by the caller in memory: the uri need not be a file at all
             i = rng.randrange(len(chosen))
